@@ -20,7 +20,9 @@ OPS_KEY = "ops"
 RULE = ("layouts written through the real cesium writer: 1-3 index channels x 0-3 data channels (int64/uint8/float32/"
         "string/json), 1-4 writer sessions at disjoint times (35% out of time order, contiguous writers, writer start "
         "0/1/5 ns before the first sample), frames of 1-8 samples, spacing {1,2,7,1000} ns, explicit or auto commit, "
-        "file-size caps {default,40,64,100,200,1000} B forcing rollover, groups that do not write their index, 10% "
+        "file-size caps {default,40,64,100,200,1000} B forcing rollover, groups that do not write their index, zero-length "
+        "samples on string/json channels (preferably last in a frame/domain), 40% iterated after Close+Open (offset tables "
+        "rebuilt from the files), 10% "
         "with one illegal step; then 3-25 iterator commands on one channel: positions from sample stamps, +-1, writer "
         "starts, 0, MAX; spans {1,2,gap,gap+-1,domain length,whole range,MAX}; chunk {1,2,3,7,100}. Non-trivial = the "
         "iterated channel holds >=2 committed sessions or a rollover-size cap, and the sequence has both a forward and "
@@ -127,6 +129,10 @@ def avoid_known(ops, rng, spans=(1, 2, 7)):
 def gen_case(rng, tier, backward_auto=False):
     malformed = rng.random() < 0.1
     setup = cesgen.gen_setup(rng, malformed=malformed)
+    if rng.random() < 0.4:
+        # iterate a re-opened database: offset tables of variable-length channels are then
+        # rebuilt by scanning the files instead of being the ones the writers published
+        setup["script"].append({"op": "reopen"})
     keys = [c["key"] for c in setup["channels"]]
     written = {kv["k"] for o in setup["script"] if o["op"] == "write" for kv in o["frame"]}
     cand = [k for k in keys if k in written] or keys
